@@ -252,7 +252,7 @@ def matrix_cases(ctx):
                     if sp.force and cls in seen:
                         continue        # second spelling only contributes boundary classes the canonical one lacks
                     # the comment text carries things that look like other tokens: a lone back-tick, a quote, a per cent sign
-                    t2 = with_comment(toks, i, mode, '// m%d%s' % (cnum, ['', ' `tick', ' "quote', ' 100% %s'][cnum % 4]))
+                    t2 = with_comment(toks, i, mode, '// m%d%s' % (cnum, [' `tick', ' `tick "quote 100% %s', ' "quote', " it's 100% %s"][cnum % 4]))
                     cases.append((p, cls, t2))
             for _, cls, _ in cases:
                 seen.add(cls)
